@@ -101,6 +101,8 @@ class H:
         self.notes = []
         self.allowed_exc = ()
         self.sampled = {}
+        self.replay_kf = None
+        self.mod_sign = set()
 
     @property
     def sym(self):
@@ -276,6 +278,16 @@ class H:
     def eq_up_to_sign(self, a, b, tol=None):
         return self.eq(a, b, tol) | self.eq(a, [-(x) for x in _flat(b)] if not isinstance(b, _np.ndarray) else -b, tol)
 
+    def same_quat(self, out, q, tol=None):
+        """out == +-q for unit q. Symbolic form: (out.q)^2 == 1 (equivalent when |out| = |q| = 1, which the caller
+        checks separately); concrete form: component-wise"""
+        if self.sym:
+            d = 0.0
+            for a, b in self._pairs(out, q):
+                d = d + a * b
+            return self.eq(d * d, 1.0, tol)
+        return self.eq_up_to_sign(out, q, tol)
+
     def angle_eq(self, a, b, unit='rad'):
         """computed angle a equals expected angle b"""
         if self.sym:
@@ -311,6 +323,45 @@ class H:
         elif not p.len:
             self.assume_failed.append((name, p.info))
 
+    def kf(self, kf_id, region):
+        """region of a known finding, for use as `kf(...) | property`; while the finding's own witness is being
+        replayed the region is reported as false so that the defect shows"""
+        self.notes.append(f"known finding {kf_id}: region carved out of the obligation (witness replayed separately)")
+        if self.replay_kf == kf_id:
+            return self.false()
+        return region
+
+    def lemma(self, name, p):
+        """solver-checked fact that is then available as a hypothesis to later queries on this path"""
+        self.check('lemma: ' + name, p)
+        if self.sym:
+            for _, t in p.conj:
+                CTX.domain.append(t)
+
+    def lemma_rotation(self, R):
+        """R R^T = I and det R = 1 as certified facts, built with the term constructors the code's gates use"""
+        if not self.sym:
+            return
+        R = _np.asarray(R)
+        I = _np.identity(3).astype(object)
+        self.lemma('R R^T == I', self.eq(R @ R.T, I))
+        self.lemma('det R == 1', self.eq(proxy._det(R), 1.0))
+
+    def split_signs(self, xs, tag='sgn'):
+        """strata: fork on the sign pattern (>= 0 / <= 0) of the given input symbols"""
+        if not self.sym:
+            return [1 if builtins.float(x) >= 0 else -1 for x in xs]
+        out = []
+        for i, x in enumerate(xs):
+            c = core.choose(2, f'{tag}{i}')
+            if c == 0:
+                CTX.domain.append(x.t >= 0)
+                out.append(1)
+            else:
+                CTX.domain.append(x.t <= 0)
+                out.append(-1)
+        return out
+
     def exclude_known(self, kf_id, region):
         """remove a known finding's region from the domain (the finding's witness is replayed separately)"""
         self.notes.append(f"known finding {kf_id}: region excluded from the domain")
@@ -331,9 +382,12 @@ class H:
         else:
             self.checks.append(dict(name=name, ok=p.len, info=p.info))
 
-    def out(self, name, value):
-        """observed output (fidelity comparison, finiteness in concrete mode)"""
+    def out(self, name, value, mod_sign=False):
+        """observed output (fidelity comparison, finiteness in concrete mode). mod_sign: the value is only defined up to
+        a global sign (contracts with a nondeterministic sign)"""
         self.outs[name] = value
+        if mod_sign:
+            self.mod_sign.add(name)
 
     def note(self, s):
         self.notes.append(s)
@@ -394,11 +448,12 @@ def classify_exception(e):
     return 'exc'
 
 
-def run_conc(h, env, rng=None, tier='quick'):
+def run_conc(h, env, rng=None, tier='quick', replay_kf=None):
     """run harness function concretely on the unpatched repository code"""
     proxy.unpatch()
     CTX.mode = 'conc'
     hh = H('conc', env=env, rng=rng, tier=tier)
+    hh.replay_kf = replay_kf
     res = dict(exc=None, nonfinite=[], failed=[], assume_failed=[], outs={}, sampled={})
     old = _np.seterr(all='ignore')
     try:
@@ -422,6 +477,7 @@ def run_conc(h, env, rng=None, tier='quick'):
         except Exception:
             pass
     res['assume_failed'] = hh.assume_failed
+    res['mod_sign'] = set(hh.mod_sign)
     res['sampled'] = hh.sampled
     res['checks'] = [c['name'] for c in hh.checks]
     return res
